@@ -95,7 +95,14 @@ class CompleteWorkflowHandler(StabilizeHandler[CompleteWorkflow]):
             # Collect running stages to cancel if not successful
             running_stages = []
             if status != WorkflowStatus.SUCCEEDED:
-                running_stages = [s for s in execution.top_level_stages() if s.status == WorkflowStatus.RUNNING]
+                # Also stages that are parked: a SUSPENDED / PAUSED stage of a
+                # workflow that just failed or was canceled would otherwise stay
+                # parked forever inside the finished workflow.
+                running_stages = [
+                    s
+                    for s in execution.top_level_stages()
+                    if s.status in (WorkflowStatus.RUNNING, WorkflowStatus.SUSPENDED, WorkflowStatus.PAUSED)
+                ]
 
             # Save pipeline_config_id before cleanup
             pipeline_config_id = execution.pipeline_config_id
